@@ -610,7 +610,7 @@ func (f *File) denseLinks(o *Obj, d []byte, depth int, record bool) {
 		for i := 0; i < f.OffSz; i++ {
 			v |= uint64(d[q+i]) << (8 * uint(i))
 		}
-		return v
+		return widen(v, f.OffSz)
 	}
 	heapAddr, btAddr := rd(p), rd(p+f.OffSz)
 	if heapAddr == undef || btAddr == undef {
@@ -707,7 +707,7 @@ func (f *File) denseAttrs(o *Obj, d []byte, record bool) {
 		for i := 0; i < f.OffSz; i++ {
 			v |= uint64(d[q+i]) << (8 * uint(i))
 		}
-		return v
+		return widen(v, f.OffSz)
 	}
 	heapAddr, btAddr := rd(p), rd(p+f.OffSz)
 	if heapAddr == undef || btAddr == undef {
